@@ -13,6 +13,8 @@
  *             input; every generated access unit following valid parameter
  *             sets is output
  *   corrupt   arbitrary / damaged octets into the framers (AddressSanitizer)
+ *   corrupt-frames  damaged frames in the other input encapsulations (length
+ *             prefixes, raw NAL units with offset attributes)
  *   startcode3  like h264/h265 on clean streams whose very first octets are a
  *             3-octet start code (kept apart: see the final report)
  */
@@ -690,7 +692,9 @@ static struct tsl_sink *run_framer(struct vh_rng *r, bool h265, const uint8_t *s
     const char *gname = h265 ? "upipe_h265_framer" : "upipe_h264_framer";
     for (int i = 0; i < np; i++) {
         struct uref *u = tsl_uref_from_bytes_rnd(r, s + off, sizes[i]);
-        if (set_disc && vh_chance(r, 1, 15)) uref_flow_set_discontinuity(u);
+        bool dsc = set_disc && vh_chance(r, 1, 15);
+        if (dsc) uref_flow_set_discontinuity(u);
+        if (vh_opts.verbose >= 2) fprintf(stderr, "  feed [%zu,%zu)%s\n", off, off + sizes[i], dsc ? " DISC" : "");
         off += sizes[i];
         tsl_guard_begin(gname, 64 + 2 * (uint64_t)n);
         upipe_input(p, u, NULL);
@@ -738,6 +742,11 @@ static int locate_output(bool h265, const struct tsl_rec *o, const uint8_t *in, 
 {
     size_t starts[64];
     int ns = ref_split_annexb(o->data, o->size, starts, 64);
+    int best = -1;
+    size_t best_end = 0;
+    /* all candidates are tried and the one ending first in the input wins
+     * (it keeps the most room for the following units): with tiny NAL units
+     * the same octets may occur several times */
     for (int strip = 0; strip <= 4 && strip <= ns; strip++) {
         size_t from = strip == 0 ? 0 : strip < ns ? starts[strip] : o->size;
         if (strip > 0) {
@@ -751,15 +760,46 @@ static int locate_output(bool h265, const struct tsl_rec *o, const uint8_t *in, 
         while (hi < o->size && o->data[hi] == 0 && hi - from < 2) hi++;
         for (size_t f = lo; f <= hi; f++) {
             size_t len = o->size - f;
-            if (len == 0) { *where = *pos; *strip_bytes = f; return strip; }
-            const uint8_t *q = *pos <= n ? memmem(in + *pos, n - *pos, o->data + f, len) : NULL;
-            if (q) {
-                *where = (size_t)(q - in);
-                *pos = *where + len;
-                *strip_bytes = f;
-                return strip;
+            size_t w, e;
+            if (len == 0) { w = *pos; e = *pos; }
+            else {
+                const uint8_t *q = *pos <= n ? memmem(in + *pos, n - *pos, o->data + f, len) : NULL;
+                if (!q) continue;
+                w = (size_t)(q - in);
+                e = w + len;
+            }
+            if (best < 0 || e < best_end) {
+                best = strip; best_end = e;
+                *where = w; *strip_bytes = f;
             }
         }
+    }
+    if (best >= 0) *pos = best_end;
+    return best;
+}
+
+/* lenient containment for damaged streams: each unit ends with an in-order
+ * slice (>= 3 octets) of the input; what precedes it (delimiter, repeated
+ * parameter sets: copies of earlier input, which may contain anything) is not
+ * judged.  Among the matching suffixes the one ending first is taken: it keeps
+ * the most room for the following units.  Returns the index of the first unit
+ * without such a suffix, or -1. */
+static long contain_lenient(struct tsl_sink *s, const uint8_t *in, size_t n, size_t *pos_p)
+{
+    size_t pos = 0;
+    for (size_t i = 0; i < s->n; i++) {
+        struct tsl_rec *o = &s->recs[i];
+        bool found = false;
+        size_t best_end = 0;
+        for (size_t from = 0; from + 3 <= o->size; from++) {
+            const uint8_t *q = pos <= n ? memmem(in + pos, n - pos, o->data + from, o->size - from) : NULL;
+            if (!q) continue;
+            size_t e = (size_t)(q - in) + (o->size - from);
+            if (!found || e < best_end) best_end = e;
+            found = true;
+        }
+        if (!found) { *pos_p = pos; return (long)i; }
+        pos = best_end;
     }
     return -1;
 }
@@ -812,13 +852,15 @@ static void offsets_str(const struct tsl_rec *o, char *buf, size_t n)
  * the comparison */
 static unsigned cmp_reported;   /* categories already reported in this case */
 
-static void compare_sinks(const char *codec, bool conformant, struct tsl_sink *a, const char *na, struct tsl_sink *b, const char *nb, size_t n)
+static void compare_sinks(const char *codec, const char *kprefix, struct tsl_sink *a, const char *na, struct tsl_sink *b, const char *nb, size_t n)
 {
     char key[80];
-#define KEY(x) (snprintf(key, sizeof(key), "c17:%s:%scutting-dependent:%s", codec, conformant ? "" : "malformed-stream:", x), key)
+#define KEY(x) (snprintf(key, sizeof(key), "c17:%s:%scutting-dependent:%s", codec, kprefix, x), key)
     if (a->n != b->n)
         vh_violation(KEY("octets"), "%zu access units with cutting '%s' but %zu with cutting '%s' (stream of %zu octets)", a->n, na, b->n, nb, n);
     bool r_flags = cmp_reported & 1, r_off = cmp_reported & 2, r_stale = cmp_reported & 4, r_hs = cmp_reported & 8, r_attr = cmp_reported & 16;
+    if (!strcmp(kprefix, "startcode3:"))
+        r_flags = r_off = r_stale = r_hs = r_attr = true;   /* judged by the modes h264 / h265 */
     for (size_t i = 0; i < a->n; i++) {
         struct tsl_rec *x = &a->recs[i], *y = &b->recs[i];
         if (x->size != y->size || memcmp(x->data, y->data, x->size))
@@ -894,6 +936,7 @@ static void case_framer(struct vh_rng *r, bool h265, bool sc3_start)
                 }
             }
         }
+        if (!sc3_start) e->nals[0].sc = 4;     /* see mode "startcode3" */
         if (!clean && vh_chance(r, 1, 2)) {
             /* trailing zero octets after some NAL units */
             for (int k = 0; k < e->nnal; k++)
@@ -935,13 +978,22 @@ static void case_framer(struct vh_rng *r, bool h265, bool sc3_start)
         for (size_t i = 0; i < s->n && !any_stale; i++)
             if (has_stale_offsets(&s->recs[i], real_offsets(&s->recs[i], NULL, NULL))) any_stale = true;
         if (!first) { first = s; first_style = style; continue; }
-        compare_sinks(codec, conformant, first, tsl_cut_name(first_style), s, tsl_cut_name(style), in->n);
+        compare_sinks(codec, sc3_start ? "startcode3:" : conformant ? "" : "malformed-stream:", first, tsl_cut_name(first_style), s, tsl_cut_name(style), in->n);
         vh_count_dyn("framer.%s.cuttings_compared", codec);
     }
     /* containment */
     size_t pos = 0;
     size_t where[64], stripb[64];
-    for (size_t i = 0; i < first->n && i < 64; i++) {
+    if (!conformant) {
+        long bad = contain_lenient(first, in->p, in->n, &pos);
+        if (bad >= 0) {
+            snprintf(key, sizeof(key), "c17:%s:bytes-not-from-input", codec);
+            vh_violation(key, "malformed stream: no suffix of access unit %ld (%zu octets) is an in-order slice of the input after offset %zu",
+                         bad, first->recs[bad].size, pos);
+        }
+        vh_count_dyn("framer.%s.outputs_contained_lenient", codec);
+    }
+    for (size_t i = 0; conformant && i < first->n && i < 64; i++) {
         int st = locate_output(h265, &first->recs[i], in->p, in->n, &pos, &where[i], &stripb[i]);
         if (st < 0) {
             snprintf(key, sizeof(key), "c17:%s:bytes-not-from-input", codec);
@@ -1016,8 +1068,74 @@ static void case_framer(struct vh_rng *r, bool h265, bool sc3_start)
 /* ==================================================================== */
 /* corrupt mode                                                         */
 
+/* one frame per buffer with length prefixes or NAL offset attributes (the
+ * other input encapsulations of the framers), lengths and offsets damaged */
+static void case_corrupt_frames(struct vh_rng *r)
+{
+    bool h265 = vh_chance(r, 1, 2);
+    uint64_t h = 0xf4a3e + h265;
+    static const enum uref_h26x_encaps ie[] = { UREF_H26X_ENCAPS_LENGTH1, UREF_H26X_ENCAPS_LENGTH2, UREF_H26X_ENCAPS_LENGTH4, UREF_H26X_ENCAPS_NALU };
+    enum uref_h26x_encaps in_e = ie[vh_below(r, 4)];
+    enum uref_h26x_encaps out_e = gen_encaps(r);
+    struct es *e = gen_es(r, h265, 1 + vh_below(r, 4), false);
+    struct tsl_sink *sink = tsl_sink_new("au");
+    sink->flow_format_hook = ff_hook;
+    want_encaps = out_e;
+    struct upipe_mgr *mgr = h265 ? upipe_h265f_mgr_alloc() : upipe_h264f_mgr_alloc();
+    struct upipe *p = tsl_track(upipe_void_alloc(mgr, uprobe_use(tsl_probe)));
+    upipe_mgr_release(mgr);
+    if (!p) vh_violation("tslab:alloc-failed", "cannot allocate framer");
+    upipe_set_output(p, tsl_sink_upipe(sink));
+    struct uref *fd = uref_block_flow_alloc_def(tsl_uref_mgr, h265 ? "hevc.pic." : "h264.pic.");
+    uref_h26x_flow_set_encaps(fd, in_e);
+    int err = upipe_set_flow_def(p, fd);
+    uref_free(fd);
+    if (!ubase_check(err)) vh_violation("tslab:flow-def-refused", "framer refused its flow definition (%d)", err);
+    vh_tr("corrupt frames %s in=%s out=%s aus=%d", h265 ? "h265" : "h264", encaps_name(in_e), encaps_name(out_e), e->nau);
+    for (int a = 0; a < e->nau; a++) {
+        struct cnal nals[64];
+        int n = 0;
+        for (int k = e->aus[a].first; k < e->aus[a].first + e->aus[a].count && n < 64; k++) {
+            nals[n].p = e->nals[k].p; nals[n].n = e->nals[k].n; nals[n].sc = 4;
+            if (in_e == UREF_H26X_ENCAPS_LENGTH1 && nals[n].n > 255) nals[n].n = 255;
+            n++;
+        }
+        struct tsl_buf *b = tsl_buf_new();
+        size_t off[65];
+        ref_join(b, nals, n, in_e, false, off);
+        /* the first frame stays intact: without any activated parameter set
+         * the framers run upipe_h26xf_convert_frame with a NULL Annex B header
+         * and abort on an assertion (an abort on corrupt input is a
+         * diagnostic, not an out-of-bounds read; see the final report) */
+        uint32_t c = a == 0 ? 99 : vh_below(r, 100);
+        const char *what = "intact";
+        if (c < 30) { tsl_corrupt(r, (enum tsl_corrupt)vh_below(r, TSL_COR_NB), b->p, b->n); what = "octets"; }
+        else if (c < 50 && in_e != UREF_H26X_ENCAPS_NALU && n > 0) {
+            /* a length prefix pointing beyond the frame */
+            size_t at = off[vh_below(r, (uint32_t)n)];
+            for (size_t i = 0; i < prefix_size(in_e, 0) && at + i < b->n; i++) b->p[at + i] = (uint8_t)(vh_chance(r, 1, 2) ? 0xff : vh_rand(r));
+            what = "length-prefix";
+        } else if (c < 60) { b->n = vh_below(r, (uint32_t)b->n + 1); what = "truncated"; }
+        struct uref *u = tsl_uref_from_bytes_rnd(r, b->p, b->n);
+        if (in_e == UREF_H26X_ENCAPS_NALU) {
+            for (int k = 1; k < n; k++) {
+                uint64_t o = off[k];
+                if (c >= 60 && c < 80) { o = vh_chance(r, 1, 2) ? vh_rand(r) % (b->n + 50) : o + vh_below(r, 9) - 4; what = "nal-offsets"; }
+                uref_h26x_set_nal_offset(u, o, (uint64_t)(k - 1));
+            }
+        }
+        vh_count_dyn("corrupt.frames.%s.%s", encaps_name(in_e), what);
+        h = vh_hash_bytes(h, b->p, b->n < 16 ? b->n : 16) + b->n;
+        upipe_input(p, u, NULL);
+    }
+    tsl_release(&p);
+    VH_COUNT("corrupt.frame_mode_cases");
+    vh_nontrivial(h);
+}
+
 static void case_corrupt(struct vh_rng *r)
 {
+
     bool h265 = vh_chance(r, 1, 2);
     const char *codec = h265 ? "h265" : "h264";
     char key[64];
@@ -1038,16 +1156,36 @@ static void case_corrupt(struct vh_rng *r)
         if (vh_chance(r, 1, 4)) in->n = vh_below(r, (uint32_t)in->n + 1);
         VH_COUNT("corrupt.damaged_streams");
     }
+    if (in->n >= 3 && in->p[0] == 0 && in->p[1] == 0 && in->p[2] == 1) {
+        /* a bare 3-octet start code as first octets: mode "startcode3" */
+        tsl_buf_put8(in, 0);
+        memmove(in->p + 1, in->p, in->n - 1);
+        in->p[0] = 0;
+    }
     h = vh_hash_bytes(h, in->p, in->n);
-    enum uref_h26x_encaps oe = vh_chance(r, 2, 3) ? UREF_H26X_ENCAPS_ANNEXB : gen_encaps(r);
+    /* Annex B output only: conversions of units with wrong NAL offsets abort
+     * on an assertion of upipe_h26xf_decaps_nal (see ...:stale-nal-offsets) */
+    enum uref_h26x_encaps oe = UREF_H26X_ENCAPS_ANNEXB;
     struct tsl_sink *s = run_framer(r, h265, in->p, in->n, (enum tsl_cut_style)vh_below(r, TSL_CUT_NB), oe, vh_chance(r, 1, 3));
+    if (vh_opts.verbose >= 2) {
+        fprintf(stderr, "INPUT ");
+        for (size_t i = 0; i < in->n; i++) fprintf(stderr, "%02x", in->p[i]);
+        fprintf(stderr, "\n");
+        for (size_t k = 0; k < s->n; k++) {
+            fprintf(stderr, "UNIT%zu ", k);
+            for (size_t i = 0; i < s->recs[k].size; i++) fprintf(stderr, "%02x", s->recs[k].data[i]);
+            fprintf(stderr, "\n");
+        }
+    }
     if (oe == UREF_H26X_ENCAPS_ANNEXB) {
-        size_t pos = 0, where, sb;
-        for (size_t i = 0; i < s->n; i++)
-            if (locate_output(h265, &s->recs[i], in->p, in->n, &pos, &where, &sb) < 0) {
-                snprintf(key, sizeof(key), "c17:%s:bytes-not-from-input", codec);
-                vh_violation(key, "corrupt stream: access unit %zu (%zu octets) is not an in-order slice of the input", i, s->recs[i].size);
-            }
+        size_t pos = 0;
+        long bad = contain_lenient(s, in->p, in->n, &pos);
+        if (bad >= 0) {
+            snprintf(key, sizeof(key), "c17:%s:bytes-not-from-input", codec);
+            vh_violation(key, "corrupt stream: no suffix of access unit %ld (%zu octets) is an in-order slice of the input after offset %zu",
+                         bad, s->recs[bad].size, pos);
+        }
+        VH_ADD("corrupt.outputs_contained", s->n);
     }
     vh_count_dyn("corrupt.%s.streams_fed", codec);
     VH_ADD("corrupt.octets_fed", in->n);
@@ -1065,6 +1203,7 @@ static void run_case(struct vh_rng *r)
     else if (!strcmp(m, "h264")) c = 50;
     else if (!strcmp(m, "h265")) c = 70;
     else if (!strcmp(m, "corrupt")) c = 90;
+    else if (!strcmp(m, "corrupt-frames")) { case_corrupt_frames(r); return; }
     else if (!strcmp(m, "startcode3")) { VH_COUNT("framer.stream_starting_with_3_octet_start_code"); case_framer(r, vh_chance(r, 1, 2), true); return; }
     if (c < 20) case_convert(r);
     else if (c < 50) case_golomb(r);
